@@ -35,6 +35,7 @@ type Universe struct {
 	modules map[string]string // module path -> dir
 	ifaceContracts map[string]*FuncContract
 	finalGlobals map[string]bool
+	finalIface   map[*ssa.Global]types.Type
 }
 
 func readModules(repo string) map[string]string {
@@ -81,7 +82,7 @@ func (u *Universe) repoDirFor(importPath string) string {
 }
 
 func loadUniverse(repo, modDir string, patterns []string) (*Universe, error) {
-	u := &Universe{repo: repo, modDir: modDir, pkgs: map[string]*PkgInfo{}, effects: map[*ssa.Function]ModSet{}, ifaceContracts: map[string]*FuncContract{}, finalGlobals: map[string]bool{}}
+	u := &Universe{repo: repo, modDir: modDir, pkgs: map[string]*PkgInfo{}, effects: map[*ssa.Function]ModSet{}, ifaceContracts: map[string]*FuncContract{}, finalGlobals: map[string]bool{}, finalIface: map[*ssa.Global]types.Type{}}
 	u.modules = readModules(repo)
 	cfg := &packages.Config{Mode: packages.LoadAllSyntax, Dir: modDir, Env: append(os.Environ(), "GOFLAGS=-mod=mod", "GOPROXY=off", "GOSUMDB=off", "GOTOOLCHAIN=local",
 		"PATH=/opt/veriftools/go1.26.8/bin:"+os.Getenv("PATH"))}
